@@ -155,14 +155,27 @@ def splitLens {β : Type} : List Nat → List β → List (List β)
   | [], _ => []
   | n :: ns, xs => xs.take n :: splitLens ns (xs.drop n)
 
-/-- Runs stored as (data file, offsets log) and read back; `none` if the log cannot be read. -/
+/-- Read `n` (offset, size) pairs the way `MergingReader::Run` does (sort.hh:251-252, 276-277:
+"Sequencing is important"): `offset = TotalOffset()` *before* `size = NextSize()`. -/
+def OffsetsReader.takeAt : Nat → OffsetsReader → Option (List (Nat × Nat))
+  | 0, _ => some []
+  | n + 1, r =>
+    match r.nextSize with
+    | none => none
+    | some (s, r') => (OffsetsReader.takeAt n r').map ((r.outputSum, s) :: ·)
+
+/-- the piece of the data file at `[offset, offset + size)` (`ErsatzPRead`) -/
+def readAt {β : Type} (data : List β) (p : Nat × Nat) : List β := (data.drop p.1).take p.2
+
+/-- Runs stored as (data file, offsets log) and read back at the logged positions; `none` if the
+log cannot be read. -/
 def storeRuns {β : Type} (runs : List (List β)) : Option (List (List β)) :=
   match offsetsEncode (runs.map List.length) with
   | none => none
   | some r =>
-    match offsetsDecode r with
+    match r.takeAt r.blockCount with
     | none => none
-    | some lens => some (splitLens lens runs.flatten)
+    | some pairs => some (pairs.map (readAt runs.flatten))
 
 /-! ## Block sorting -/
 
